@@ -1278,6 +1278,53 @@ fn run_deadlinerace(attempts: usize) -> (String, String, String) {
     )
 }
 
+/// `vq latecancel <attempts>`: a timer is cancelled in the last millisecond before its deadline (400 us
+/// before it; every fourth attempt: a 900 us timer cancelled at once).  An attempt counts only if the
+/// instant read after cancel_timer() returned is still before (the instant read before scheduling + the
+/// duration), which is earlier than the timer's deadline: the cancel provably came first.  A cancelled
+/// timer must never be delivered.
+fn run_latecancel(attempts: usize) -> (String, String, String) {
+    if attempts == 0 || attempts > 100_000 {
+        return ("bad-case".into(), "ok".into(), String::new())
+    }
+    let mut delivered = 0usize;
+    let mut counted = 0usize;
+    for a in 0..attempts {
+        let mut q = EventReceiver::<u64>::default();
+        let tx = q.sender().clone();
+        let short = a % 4 == 3;
+        let dur = if short { Duration::from_micros(900) } else { Duration::from_millis(4) };
+        let before = Instant::now();
+        let id = tx.send_with_timer(a as u64, dur);
+        if !short {
+            let until = before + dur - Duration::from_micros(400);
+            while Instant::now() < until {
+                std::hint::spin_loop();
+            }
+        }
+        tx.cancel_timer(id);
+        let in_time = Instant::now() < before + dur;
+        let r = if a % 2 == 0 {
+            q.receive_timeout(Duration::from_millis(6))
+        }
+        else {
+            std::thread::sleep(Duration::from_millis(6));
+            q.try_receive()
+        };
+        if in_time {
+            counted += 1;
+            if r.is_some() {
+                delivered += 1;
+            }
+        }
+    }
+    (
+        format!("delivered={}", delivered),
+        if delivered == 0 { "ok".into() } else { format!("FAIL {} of {} timers cancelled before their deadline (within its last millisecond) were delivered", delivered, counted) },
+        format!("latecancel,cancel,timer{}", if counted * 2 >= attempts { ",waited" } else { "" }),
+    )
+}
+
 fn run_race(kind: char) -> (String, String, String, String) {
     use message_io::util::verif::set_sync_handler;
     use std::sync::atomic::{AtomicBool, Ordering};
@@ -1499,6 +1546,11 @@ fn main() {
                 }
             }
         }
+        "gen-latecancel" => {
+            let n = arg_u64(2, 200) as usize;
+            let (i, v, t) = run_latecancel(n);
+            emit(&mut out, &format!("vq latecancel {}", n), &i, &v, &t);
+        }
         "gen-deadlinerace" => {
             let n = arg_u64(2, 300) as usize;
             let (i, v, t) = run_deadlinerace(n);
@@ -1537,6 +1589,12 @@ fn main() {
         }
         "run" => {
             for line in stdin_lines() {
+                if line.starts_with("vq latecancel ") {
+                    let n = line.split(' ').nth(2).and_then(|x| x.parse().ok()).unwrap_or(0);
+                    let (i, v, t) = run_latecancel(n);
+                    emit(&mut out, &line, &i, &v, &t);
+                    continue
+                }
                 if line.starts_with("vq deadlinerace ") {
                     let n = line.split(' ').nth(2).and_then(|x| x.parse().ok()).unwrap_or(0);
                     let (i, v, t) = run_deadlinerace(n);
